@@ -217,6 +217,32 @@ func TestC15(t *testing.T) {
 							fail(i, "GetByID", exp, got)
 							broken = true
 						}
+					case "byidsave":
+						s, err := store.GetByID(realID(e.A))
+						got := sessObs{}
+						if err == nil {
+							s.Set(e.K, e.V)
+							if serr := s.Save(); serr != nil {
+								fail(i, "GetByID-Set-Save", "saved", serr.Error())
+								broken = true
+							}
+							got.ID = s.ID()
+							if v, ok := s.Get("k1").(string); ok {
+								got.D1 = v
+							}
+							if v, ok := s.Get("k2").(string); ok {
+								got.D2 = v
+							}
+							s.Release()
+						}
+						exp := sessObs{D1: e.D1, D2: e.D2}
+						if e.ID != 0 {
+							exp.ID = realID(e.ID)
+						}
+						if got != exp {
+							fail(i, "GetByID-Set-Save", exp, got)
+							broken = true
+						}
 					case "storedelete":
 						_ = store.Delete(realID(e.A))
 					case "begin":
